@@ -583,6 +583,81 @@ fn check_case(out: &mut Out, c: &Case, family: &str, deep: bool) {
 }
 
 // ------------------------------------------------------------------------------------------
+// api_trait_twin: fit / predict through `smartcore::api::{SupervisedEstimator, Predictor}` give exactly
+// what the inherent methods give (training matrix and extra rows, model fitted either way)
+// ------------------------------------------------------------------------------------------
+fn twin_case(c: &Case, extra: &[Vec<f64>]) -> Option<twin::Diff> {
+    type DM = smartcore::linalg::naive::dense_matrix::DenseMatrix<f64>;
+    if c.x.is_empty() || c.x[0].is_empty() || extra.is_empty() {
+        return None;
+    }
+    let x = dense(&c.x);
+    let xe = dense(extra);
+    let y = c.y.clone();
+    let probes = [("the training matrix", &x), ("the extra rows", &xe)];
+    macro_rules! run {
+        ($ty:ty, $p:expr) => {{
+            let p = $p;
+            twin::check(
+                "SupervisedEstimator",
+                "Predictor",
+                "predict",
+                || twin::fit_sup::<$ty, _, _, _>(&x, &y, p.clone()),
+                || <$ty>::fit(&x, &y, p.clone()),
+                |m: &$ty, z: &DM| twin::predict(m, z),
+                |m: &$ty, z: &DM| m.predict(z),
+                &probes,
+                |m: &$ty| serde_json::to_string(m).unwrap_or_default(),
+                true,
+            )
+        }};
+    }
+    if c.cls {
+        run!(DecisionTreeClassifier<f64>, DecisionTreeClassifierParameters { criterion: criterion(c.crit), max_depth: c.md, min_samples_leaf: c.msl, min_samples_split: c.mss })
+    } else {
+        run!(DecisionTreeRegressor<f64>, DecisionTreeRegressorParameters { max_depth: c.md, min_samples_leaf: c.msl, min_samples_split: c.mss })
+    }
+}
+
+fn check_twin(out: &mut Out, c: &Case) {
+    let key = case_key(c);
+    out.eval(key ^ 0x7717, c.x.len() >= 6);
+    out.count(&format!("twin:{}", if c.cls { "classifier" } else { "regressor" }));
+    let extra = gen_extra(c, key);
+    if twin_case(c, &extra).is_none() {
+        return;
+    }
+    // shrink: fewer extra rows, fewer training rows
+    let (mut cur, mut ex) = (c.clone(), extra);
+    let mut progress = true;
+    while progress {
+        progress = false;
+        let mut i = 0;
+        while ex.len() > 1 && i < ex.len() {
+            let mut t = ex.clone();
+            t.remove(i);
+            if twin_case(&cur, &t).is_some() { ex = t; progress = true; } else { i += 1; }
+        }
+        let mut i = 0;
+        while cur.x.len() > 2 && i < cur.x.len() {
+            let mut t = cur.clone();
+            t.x.remove(i);
+            t.y.remove(i);
+            if twin_case(&t, &ex).is_some() { cur = t; progress = true; } else { i += 1; }
+        }
+    }
+    if let Some(d) = twin_case(&cur, &ex) {
+        let mut inp = cur.to_json();
+        inp["oracle"] = json!(twin::ORACLE);
+        inp["extra_key"] = json!(key.to_string());
+        inp["extra_rows"] = json!(ex);
+        inp["differing_call"] = json!(d.call);
+        out.count(&format!("twin:failing:{}", if c.cls { "DecisionTreeClassifier" } else { "DecisionTreeRegressor" }));
+        out.fail(twin::ORACLE, &format!("{}: {}: {}", if c.cls { "DecisionTreeClassifier" } else { "DecisionTreeRegressor" }, d.call, d.what), inp);
+    }
+}
+
+// ------------------------------------------------------------------------------------------
 // generators
 // ------------------------------------------------------------------------------------------
 const LABEL_PALETTE: [f64; 9] = [-7.5, -2.0, 0.0, 0.5, 1.0, 3.0, 4.0, 17.0, 100.0];
@@ -788,7 +863,11 @@ fn replay(path: &str) -> i32 {
             let c = Case::from_json(&inp);
             let key = inp["extra_key"].as_str().and_then(|s| s.parse::<u64>().ok()).unwrap_or_else(|| case_key(&c));
             let extra = if inp.get("extra_rows").is_some() { rows_from_json(&inp["extra_rows"]) } else { gen_extra(&c, key) };
-            eval_case(&c, &extra, key, true)
+            let mut f = eval_case(&c, &extra, key, true);
+            if let Some(d) = twin_case(&c, &extra) {
+                f.push((twin::ORACLE.to_string(), format!("{}: {}", d.call, d.what)));
+            }
+            f
         }
         "argsort" => {
             let col = f64s_from_json(&inp["col"]);
@@ -829,7 +908,7 @@ fn main() {
     let mut rng = Rng::new(a.seed);
     let mut out = Out::new(
         "C05",
-        "search case = (training matrix, targets/labels, criterion, max_depth, min_samples_leaf, min_samples_split); every clause of the property is evaluated on the serialised tree; non-trivial: >= 6 rows; distinct by hash of (data, parameters)",
+        "search case = (training matrix, targets/labels, criterion, max_depth, min_samples_leaf, min_samples_split); every clause of the property is evaluated on the serialised tree; non-trivial: >= 6 rows; distinct by hash of (data, parameters). api-trait twin case = a search case fitted and queried through smartcore::api::{SupervisedEstimator, Predictor} and through the inherent methods; all results must coincide bit for bit",
     );
     out.max_failures = 6;
 
@@ -902,6 +981,11 @@ fn main() {
         if i < 2 && out.n_fail() == 0 {
             out.sample(json!({"cls": c.cls, "crit": c.crit, "n": c.x.len(), "p": c.x[0].len(), "md": c.md, "msl": c.msl, "mss": c.mss, "x_head": c.x[..2.min(c.x.len())].to_vec(), "y_head": c.y[..2.min(c.y.len())].to_vec()}));
         }
+    }
+    // ---- api-trait twins (last: the streams of the sections above are unchanged) ----
+    for i in 0..(if a.thorough { 1000 } else { 100 }) {
+        let (c, _) = gen_case(&mut rng, 60, Some(i % 2 == 1));
+        check_twin(&mut out, &c);
     }
     STATS.with(|s| out.set("oracle_counts", json!(*s.borrow())));
     out.finish(&a.out);
